@@ -200,7 +200,7 @@ DEFINED = {
     "typescript": ts_defined, "kotlin": kt_defined,
     "swift": lambda sk: [(m.start(1), m.end(1)) for m in re.finditer(r"^public (?:struct|class|enum|indirect enum|typealias) (%s+)" % IDC, sk.text, re.M)],
     "scala": lambda sk: [(m.start(1), m.end(1)) for m in re.finditer(r"^(?:case class|sealed trait|type|\ttype|object) (%s+)" % IDC, sk.text, re.M)],
-    "go": lambda sk: [(m.start(1), m.end(1)) for m in re.finditer(r"^type (%s+) " % IDC, sk.text, re.M)],
+    "go": lambda sk: [(m.start(1), m.end(1)) for m in re.finditer(r"^type (%s+)[ \[]" % IDC, sk.text, re.M)],
     "python": lambda sk: [(m.start(m.lastindex), m.end(m.lastindex)) for m in re.finditer(r"^(?:class (%s+)\(|(?=[A-Z])(%s+) = )" % (IDC, IDC), sk.text, re.M)],
 }
 
